@@ -32,7 +32,7 @@ except Exception:  # noqa
     pass
 aio.set_event_loop_policy(simloop.SimPolicy())
 
-ELEMS = (None, 0, '', 1, 1, 'x', False)
+ELEMS = (None, 0, ValueError('an element, not a failure'), '', 1, 1, 'x', False)
 
 
 class SrcError(KeyError):
